@@ -26,6 +26,7 @@ import (
 	"net/url"
 	"os"
 	"os/exec"
+	"reflect"
 	"strings"
 	"time"
 
@@ -511,40 +512,94 @@ var JavascriptTestValue interface{}
 // Zero or negative means no limit.
 var JavascriptStackDepthLimit = 5000
 
+// JavascriptNestingLimit is how deep a value that a script hands over
+// (its result, or an argument of a function of ours) may be nested.
+var JavascriptNestingLimit = 1000
+
 // exportJavascript exports a Javascript value to Go.
 //
 // A value that refers to itself ("var o = {}; o.self = o; o") sends
 // otto's Export into unbounded recursion: a fatal stack overflow that
-// kills the process.  JSON.stringify notices such a value (and a
-// value that cannot be written as JSON is of no use to us anyway).
+// kills the process.  So the value is walked here first, the way Export
+// will walk it.  (Asking the script's JSON.stringify instead is no good:
+// the script can have given the value a toJSON, or itself another JSON,
+// and values backed by Go structs with back-pointers - the result of
+// Env.ProcessEvent - keep it busy forever.)
 func exportJavascript(vm *otto.Otto, v otto.Value) (interface{}, error) {
-	if vm != nil && v.IsObject() && !v.IsFunction() {
-		if err := circularJavascript(vm, v); err != nil {
+	if v.IsObject() && !v.IsFunction() {
+		path := make(map[otto.Value]bool)
+		done := make(map[otto.Value]bool)
+		if err := checkJavascriptValue(v, path, done, 0); err != nil {
 			return nil, err
 		}
 	}
 	return v.Export()
 }
 
-// circularJavascript returns JSON.stringify's complaint about a
-// circular structure, if any.  Anything else that goes wrong in there
-// (values backed by Go structs can make it panic) is not our business
-// here.
-func circularJavascript(vm *otto.Otto, v otto.Value) (err error) {
-	defer func() {
-		if r := recover(); r != nil {
-			if r == Halt {
-				panic(r) // (the Javascript timeout)
-			}
-			err = nil
+// checkJavascriptValue looks for a cycle (or too deep a nesting) in
+// the objects and arrays of the given value.
+func checkJavascriptValue(v otto.Value, path, done map[otto.Value]bool, depth int) error {
+	if !v.IsObject() || v.IsFunction() || goBackedJavascript(v) {
+		// (Export hands a Go value back as it is.)
+		return nil
+	}
+	if path[v] {
+		return errors.New("TypeError: Converting circular structure")
+	}
+	if done[v] {
+		return nil
+	}
+	if 0 < JavascriptNestingLimit && JavascriptNestingLimit < depth {
+		return fmt.Errorf("RangeError: value nested more than %d deep", JavascriptNestingLimit)
+	}
+	path[v] = true
+	obj := v.Object()
+	for _, k := range obj.Keys() {
+		pv, err := obj.Get(k)
+		if err != nil {
+			// (A getter that throws.  Export will say so.)
+			continue
 		}
-	}()
-	if _, err = vm.Call("JSON.stringify", nil, v); err != nil {
-		if !strings.Contains(err.Error(), "circular") {
-			err = nil
+		if err = checkJavascriptValue(pv, path, done, depth+1); err != nil {
+			return err
 		}
 	}
-	return err
+	delete(path, v)
+	done[v] = true
+	return nil
+}
+
+// goBackedJavascript reports whether the Javascript object is just a
+// wrapper around a Go value (a struct, map, slice or array that we
+// handed to the script).
+//
+// otto does not say, so this looks at how otto keeps such a value.  If
+// that ever changes, the answer is "no" and the value is walked like any
+// other.
+func goBackedJavascript(v otto.Value) (is bool) {
+	defer func() {
+		if r := recover(); r != nil {
+			is = false
+		}
+	}()
+	deref := func(x reflect.Value) reflect.Value {
+		for x.IsValid() && (x.Kind() == reflect.Interface || x.Kind() == reflect.Ptr) {
+			if x.IsNil() {
+				return reflect.Value{}
+			}
+			x = x.Elem()
+		}
+		return x
+	}
+	object := deref(reflect.ValueOf(v).FieldByName("value"))
+	if !object.IsValid() || object.Kind() != reflect.Struct {
+		return false
+	}
+	inner := deref(object.FieldByName("value"))
+	if !inner.IsValid() {
+		return false
+	}
+	return strings.HasPrefix(inner.Type().Name(), "_go")
 }
 
 // RunJavascript executes Javascript code with the given bindings.  A
